@@ -1,6 +1,7 @@
 SPECIFICATION Spec
 CONSTANTS
-  ValSets <- MCValSets
+  ValSets <- MCValSetsSmall
+  Roots <- MCRoots
   Heights = {2, 3}
   Times = {1, 3}
   MaxNow = 4
